@@ -133,7 +133,8 @@ def ns_digest(ns):
         }),
         "insertion_indices": h([int(i) for i in ns.insertion_indices]),
         "history": h(ns.history),
-        "thresholds": h({"logLmin": ns.logLmin, "logLmax": ns.logLmax, "condition": ns.condition}),
+        "thresholds": h({"logLmin": ns.logLmin, "logLmax": ns.logLmax, "condition": ns.condition,
+                         "awaiting_replacement": getattr(ns, "_awaiting_replacement", False) is True}),
         "flow_pool": h({
             "samples": samples_bytes(getattr(fp, "samples", None)),
             "indices": list(getattr(fp, "indices", []) or []),
